@@ -45,9 +45,9 @@ def _hist_prop(pid, modules, text, note=HIST_NOTE, configs=ONE):
     PROPS[pid] = {"modules": modules, "campaigns": [hist(pid, configs)], "level_text": text, "level_note": note}
 
 _hist_prop("C03", ["CC.Props.C03", "CC.Props.NonVacuity"],
-    "Lean theorems: along every history of the seven edit operations identifiers stay below a never-decreasing counter and a new attribute receives an identifier strictly greater than any ever in use (never reissued, deleted holders included); rename / disable keep identifier, hint and position; rights with different id sets differ. Correspondence: random edit/update/keygen/refresh/encaps histories (delete-then-add, rename chains, dimension delete/re-add) with structure dumps, key dumps and the full decaps matrix compared between the real API and the model")
+    "Lean theorems: along every history of the seven edit operations identifiers stay below a never-decreasing counter and a new attribute receives an identifier strictly greater than any ever in use (never reissued, deleted holders included); rename / disable keep identifier, hint and position; rights with different id sets differ; over every history: no operation alters an existing secret of a right (it removes the right, prepends newer secrets, or keeps the newest), a structure edit changes no secret and update_msk leaves the chain of every surviving right as it was (edits_keep_secrets, operations_never_alter_secrets). Correspondence: random edit/update/keygen/refresh/encaps histories (delete-then-add, rename chains, dimension delete/re-add) with structure dumps, key dumps and the full decaps matrix compared between the real API and the model")
 _hist_prop("C04", ["CC.Props.C04", "CC.Props.NonVacuity"],
-    "Lean theorems: the repaired revision iterator reaches every secret of every chain; rekey prepends a fresh token; a key with only older tokens cannot open an encapsulation for newer ones; a chain refreshed with keep starts with the master's newest secret and has the closed form of refreshChain_spec under the contiguity invariants. Correspondence: histories with partial rekeys, refresh with both flags, encapsulation under stale public keys; chain contents and decaps matrices compared")
+    "Lean theorems: the repaired revision iterator reaches every secret of every chain; rekey prepends a fresh token; a key with only older tokens cannot open an encapsulation for newer ones; a chain refreshed with keep starts with the master's newest secret and has the closed form of refreshChain_spec under the contiguity invariants; over every history (contiguity of user chains inside master chains proved as an invariant of reachable worlds): a key generated anywhere, then any operations, then refreshed with keep still holds every secret it held that the master key still holds, and still opens every encapsulation it opened through such a secret (keep_refresh_keeps_secrets, keep_refresh_still_opens). Correspondence: histories with partial rekeys, refresh with both flags, encapsulation under stale public keys; chain contents and decaps matrices compared")
 _hist_prop("C05", ["CC.Props.C05", "CC.Props.NonVacuity"],
     "Lean theorems: prune keeps exactly the newest secret of a pruned right and leaves others untouched; every secret of a key refreshed with keep is a current master secret of that right, rights gone from the master key are dropped; without keep exactly the newest secret; a key holding only master secrets cannot open an encapsulation made under removed secrets. Correspondence: rekey/prune/delete/update/refresh histories, chain contents and decaps matrices compared")
 _hist_prop("C06", ["CC.Props.C06", "CC.Props.NonVacuity"],
@@ -56,8 +56,8 @@ _hist_prop("C09", ["CC.Props.C09", "CC.Props.NonVacuity"],
     "Lean theorems characterising, for all states and arguments, exactly when each structure edit, rekey, update_msk, key generation, encapsulation and refresh fail (iff statements: encaps_ok_iff, refresh_ok_iff); over every history an issued key stays refreshable with either flag. Correspondence: histories with 35% malformed arguments (unknown/duplicate/stale names, same-dimension clauses, rollbacks of the master key); ok/err of every call compared with the model")
 _hist_prop("C10", ["CC.Props.C10"],
     "Lean theorems over models that return the state the code leaves behind on each path: a failing update_msk, rekey, key generation or refresh returns the master key (and the user key) unchanged - the in-loop error branches are unreachable once the up-front validation passed. Correspondence: histories with 35% malformed arguments; serialised master and user keys dumped after every failing call and compared")
-_hist_prop("C11", ["CC.Props.C11"],
-    "Lean theorems: a right's hint is the disjunction of its attributes' hints; new secrets take the hint's flavour; rekey keeps flavours; public keys and refreshed user keys copy master secrets (flavour included); an encapsulation is hybridized iff all targeted keys are; classic secrets open nothing in a hybridized encapsulation. Correspondence: flavour flags of MSK/MPK/USK/XEnc dumps for random hint assignments and mixed-hint policies")
+_hist_prop("C11", ["CC.Props.C11", "CC.Props.NonVacuity"],
+    "Lean theorems: a right's hint is the disjunction of its attributes' hints; new secrets take the hint's flavour; rekey keeps flavours; public keys and refreshed user keys copy master secrets (flavour included); an encapsulation is hybridized iff all targeted keys are; classic secrets open nothing in a hybridized encapsulation; over every history the newest secret of a right is hybridized exactly when one of its (live) attributes was declared hybridized, and update_msk never strips a post-quantum key (flavour_follows_hints, update_never_strips). Correspondence: flavour flags of MSK/MPK/USK/XEnc dumps for random hint assignments and mixed-hint policies")
 _hist_prop("C17", ["CC.Props.C17", "CC.Props.C17Alg"], configs=BOTH, text=
     "Lean theorems: generated keys carry fresh, registered identifiers and the master key's tracers; identifiers of different keys differ; unknown identifiers are refused with nothing changed; refresh keeps registration; (Mathlib, any field) the last marker solved from the others satisfies sum t_i a_i = s for every tracing level. Correspondence: keygen/refresh/round-trip/rollback histories; user counts, ids, tracer counts compared; the relation sum t_i a_i = s is evaluated by the Lean driver in Z/l on the real scalars (master key tracers and binding scalar, user key markers) of both curves")
 _hist_prop("C18", ["CC.Props.C18"],
